@@ -1,0 +1,60 @@
+/*
+ * Atree - Scalable Arrays and Ordered Maps
+ *
+ * Copyright Flow Foundation
+ *
+ * Licensed under the Apache License, Version 2.0 (the "License");
+ * you may not use this file except in compliance with the License.
+ * You may obtain a copy of the License at
+ *
+ *   http://www.apache.org/licenses/LICENSE-2.0
+ *
+ * Unless required by applicable law or agreed to in writing, software
+ * distributed under the License is distributed on an "AS IS" BASIS,
+ * WITHOUT WARRANTIES OR CONDITIONS OF ANY KIND, either express or implied.
+ * See the License for the specific language governing permissions and
+ * limitations under the License.
+ */
+
+//go:build verif
+
+package atree
+
+//@ # ---------------------------------------------------------------- inline_utils.go: detaching an element from its parent (C10, C11)
+//@ # When an element is overwritten or removed, the parent must forget the child handle registered for it. The handle is found by
+//@ # the value id of the container the element denotes; uninlineStorableIfNeeded reports that id for every shape of element:
+//@ # an inlined array/map slab, a reference, and any of these inside wrappers. cvid names that id (ghost, defined by unfolding).
+
+//@ ghost cvid : fn(st ref) ValueID
+//@ ghost vidOf : fn(id SlabID) ValueID
+//@ ghost unw : fn(st ref) ref
+
+//@ func slabIDToValueID(id) (v)  serves C11
+//@   trusted "byte-wise copy of address and index into the value id, abstracted as the ghost function vidOf"
+//@   ensures v == vidOf(id)
+//@   pure
+
+//@ pred cvidDef(st Storable) = (st == nil ==> cvid(st) == emptyValueID) &&
+//@      (st != nil && (is(st, *ArrayDataSlab) || is(st, *ArrayMetaDataSlab) || is(st, *MapDataSlab) || is(st, *MapMetaDataSlab)) ==> cvid(st) == vidOf(sid(as(st, Slab)))) &&
+//@      (is(st, SlabIDStorable) ==> cvid(st) == vidOf(SlabID(as(st, SlabIDStorable)))) &&
+//@      (st != nil && is(st, WrapperStorable) ==> cvid(st) == cvid(unw(st))) &&
+//@      (st != nil && !is(st, *ArrayDataSlab) && !is(st, *ArrayMetaDataSlab) && !is(st, *MapDataSlab) && !is(st, *MapMetaDataSlab) && !is(st, SlabIDStorable) && !is(st, WrapperStorable) ==>
+//@           cvid(st) == emptyValueID)
+
+//@ iface WrapperStorable.WrapAtreeStorable(s) (r)
+//@   ensures r != nil
+//@   modifies alloc
+
+//@ func uninlineStorableIfNeeded(storage, storable) (r, vid, uninlined, err)  serves C10 C11 C18
+//@   requires storage != nil
+//@   assume cvidDef(storable) because "definition of the ghost function cvid (unfolding at this storable)"
+//@   assume !is(storable, *ArrayMetaDataSlab) && !is(storable, *MapMetaDataSlab) because "only leaf slabs are ever stored as inlined elements (C10)"
+//@   assume is(storable, *ArrayDataSlab) ==> as(storable, *ArrayDataSlab).header.size >= 17 && as(storable, *ArrayDataSlab).header.size <= 4294967000 because "size of an inlined array slab (C06)"
+//@   assume is(storable, *MapDataSlab) ==> as(storable, *MapDataSlab).header.size >= 17 && as(storable, *MapDataSlab).header.size <= 4294967000 &&
+//@        as(storable, *MapDataSlab).elements != nil && elsSize(as(storable, *MapDataSlab).elements) <= 4294967000 because "size of an inlined map slab (C06)"
+//@   ensures[C11] err == nil ==> vid == cvid(storable)
+//@   ensures[C10] err == nil && (is(storable, *ArrayDataSlab) || is(storable, *MapDataSlab)) ==> uninlined && r == iface(SlabIDStorable(sid(as(storable, Slab)))) && sto[sid(as(storable, Slab))] == storable
+//@   ensures[C10] err == nil && storable != nil && is(storable, SlabIDStorable) ==> !uninlined && r == storable
+//@   ensures[C10] err == nil && !uninlined ==> r == storable
+//@   ensures[C18] err != nil ==> r == nil && !uninlined && vid == emptyValueID
+//@   modifies ArrayDataSlab.header, ArrayDataSlab.inlined, MapDataSlab.header, MapDataSlab.inlined, ghost.sto, ghost.stored, ghost.touched, alloc
